@@ -504,6 +504,23 @@ Proof.
       intros v [Hv|Hv]; [subst v; pose proof (Hlt tx (or_introl eq_refl)); lia|auto].
 Qed.
 
+Lemma assign_taxa_prefix : forall fresh_new cs leaves rpool labels ns counter m ns',
+  assign_taxa fresh_new cs leaves rpool labels ns counter = Some (m, ns') -> exists extra, ns' = ns ++ extra.
+Proof.
+  intros fresh_new cs. induction leaves as [|nd rest IH]; intros rpool labels ns counter m ns' H; cbn [assign_taxa] in H.
+  - inversion H; subst. exists []. rewrite app_nil_r. reflexivity.
+  - destruct rpool as [|tx rpool'].
+    + destruct (find_fresh _ labels counter) as [k|]; [|discriminate].
+      destruct (require_taxon fresh_new cs (LT true k) ns) as [tx ns1] eqn:Er.
+      destruct (assign_taxa fresh_new cs rest [] (LT true k :: labels) ns1 k) as [[m1 ns2]|] eqn:Ea; [|discriminate].
+      inversion H; subst. clear H. destruct (IH _ _ _ _ _ _ Ea) as [extra ->].
+      unfold require_taxon in Er. destruct (if fresh_new then None else lookup_label cs (LT true k) ns 0).
+      * inversion Er; subst. eauto.
+      * inversion Er; subst. rewrite <- app_assoc. eauto.
+    + destruct (assign_taxa fresh_new cs rest rpool' labels ns counter) as [[m1 ns1]|] eqn:Ea; [|discriminate].
+      inversion H; subst. clear H. eapply IH; eauto.
+Qed.
+
 Lemma snd_inj : forall (m : list (nat * nat)) a b v, NoDup (map snd m) -> In (a, v) m -> In (b, v) m -> a = b.
 Proof.
   induction m as [|[x y] r IH]; intros a b v Hn Ha Hb; simpl in *; [tauto|].
@@ -553,7 +570,8 @@ Lemma taxa_block_spec : forall fn cs ns t r t' ns' r',
   taxa_block fn cs ns t r = Done (t', ns') r' -> NoDup (ids t) ->
   exists m, t' = set_tax m t /\ Permutation (map fst m) (leaf_ids t) /\
             (forall v, In v (map snd m) -> v < length ns') /\
-            ((fn = true \/ cs = true \/ no_case_variant ns) -> NoDup (map snd m)).
+            ((fn = true \/ cs = true \/ no_case_variant ns) -> NoDup (map snd m)) /\
+            (exists extra, ns' = ns ++ extra).
 Proof.
   intros fn cs ns t r t' ns' r' H Hn. unfold taxa_block in H.
   step H. apply d_perm_Done in Hs. destruct Hs as [Hp1 _].
@@ -565,7 +583,7 @@ Proof.
   assert (Hrp : forall v, In v (rev (apply_perm 0 a (seq 0 (length ns)))) -> v < length ns).
   { intros v Hv. apply in_rev in Hv. eapply Permutation_in in Hv; [|exact Hpool]. apply in_seq in Hv. lia. }
   destruct (assign_taxa_keys _ _ _ _ _ _ _ _ _ Ea Hrp) as (F & L & G).
-  exists m. split; [reflexivity|]. split; [|split; [exact L|]].
+  exists m. split; [reflexivity|]. split; [|split; [exact L|split; [|eapply assign_taxa_prefix; eauto]]].
   - rewrite F. apply apply_perm_Permutation. exact Hp2.
   - intros Hmode.
     destruct (assign_taxa_spec _ _ _ _ _ _ _ _ _ Ea) as (_ & N & _); auto.
@@ -591,7 +609,8 @@ Lemma finish_spec : forall fn cs ns N st r t ns' r',
   arity bin t3 /\ NoDup (ids t3) /\
   (exists D, forall x q, In (x, q) (depths t3) -> q == D)%Q /\
   (forall x, In x (leaf_taxa t3) -> exists i, x = Some i /\ i < length ns') /\
-  ((fn = true \/ cs = true \/ no_case_variant ns) -> NoDup (leaf_taxa t3)).
+  ((fn = true \/ cs = true \/ no_case_variant ns) -> NoDup (leaf_taxa t3)) /\
+  (exists extra, ns' = ns ++ extra).
 Proof.
   intros fn cs ns N st r t ns' r' I Hp t3 r'' Ht.
   destruct (prune_all_spec _ _ _ _ _ _ Hp (inv_nodup _ _ I)) as (_ & N1 & L1 & In1 & A1 & Q1 & R1).
@@ -610,9 +629,9 @@ Proof.
   { unfold t2. apply suppress_arity. apply A1. eapply arity_impl; [|apply (inv_bin _ _ I)].
     intros n [->| ->]; unfold le2; lia. }
   assert (He2 : eqd (s_ext st) D t2) by (apply suppress_eqd; exact He1).
-  destruct (taxa_block_spec _ _ _ _ _ _ _ _ Ht N2) as (m & -> & Pm & Bm & Nm).
+  destruct (taxa_block_spec _ _ _ _ _ _ _ _ Ht N2) as (m & -> & Pm & Bm & Nm & Px).
   rewrite set_tax_relabel.
-  split; [|split; [|split; [|split; [|split]]]].
+  split; [|split; [|split; [|split; [|split; [|split; [|exact Px]]]]]].
   - rewrite relabel_leaf_ids. apply Permutation_length. apply NoDup_Permutation.
     + apply NoDup_leaf_ids. exact N2.
     + eapply inv_ext_NoDup; eauto.
@@ -645,14 +664,15 @@ Theorem bd_result_spec_proved : forall fresh_new cs P ns script t ns' r,
   NoDup (ids t) /\
   (exists D, forall x q, In (x, q) (depths t) -> q == D)%Q /\
   (forall x, In x (leaf_taxa t) -> exists i, x = Some i /\ i < length ns') /\
-  ((fresh_new = true \/ cs = true \/ (forall k, ~ In (LT false k) ns)) -> NoDup (leaf_taxa t)).
+  ((fresh_new = true \/ cs = true \/ (forall k, ~ In (LT false k) ns)) -> NoDup (leaf_taxa t)) /\
+  (exists extra, ns' = ns ++ extra).
 Proof.
   intros fn cs P ns script t ns' r HN H. unfold bd_sim, bd_run in H.
   step H. destruct (bd_loop_inv _ _ _ _ _ _ HN (bd_init_inv P HN) Hs) as [I Hlen].
   unfold bd_finish in H. step H.
-  destruct (finish_spec fn cs ns _ _ _ _ ns' _ I Hs0 t r H) as (F1 & F2 & F3 & F4 & F5 & F6).
+  destruct (finish_spec fn cs ns _ _ _ _ ns' _ I Hs0 t r H) as (F1 & F2 & F3 & F4 & F5 & F6 & F7).
   split; [rewrite F1; exact Hlen|]. split; [apply (proj1 (arity_subtrees bin t)); exact F2|].
-  split; [exact F3|]. split; [exact F4|]. split; [exact F5|exact F6].
+  split; [exact F3|]. split; [exact F4|]. split; [exact F5|split; [exact F6|exact F7]].
 Qed.
 
 Theorem bd_fuel_proved : forall fresh_new cs P ns script, bd_sim fresh_new cs P ns script <> NoFuel.
